@@ -5,14 +5,18 @@
   p's keeps its pid reference and all its metadata documents — in the final
   state, at every crash point, under every fault plan; calls without a pid
   touch no pid reference and no document at all. Objects stay well addressed at
-  every crash point (C09). The recovery part (delete_object then store_object
-  succeeds from every crash state) and the membership of q in shared cid
-  reference lists are established on the real code by the crash-point sweep of
-  this check and are stated, not proved, for the model.
+  every crash point (C09). For the five calls of the property's quantifier, run
+  sequentially from a store whose indexes agree, every other pid also keeps its
+  place on its (possibly shared) cid reference list and its object at every
+  crash point (`others_fully_kept_at_every_crash_point`). The recovery part
+  (delete_object then store_object succeeds from every crash state) is
+  established on the real code by the crash-point sweep of this check and is
+  stated, not proved, for the model.
 -/
 import HSModel.Proofs.Shape
 import HSModel.Proofs.RunInv
 import HSModel.Proofs.AbsLemmas
+import HSModel.Proofs.TrailStore
 namespace HS.C10
 variable (cfg : Config) (o : Oracle)
 
@@ -200,5 +204,27 @@ example : Foreign { hId := fun s => s, dig := fun _ _ => [], size := fun _ => 0 
   intro q hq
   cases hq
   constructor <;> decide
+
+/-- **every crash point, shared lists included**: for store_object, tag_object,
+    delete_object, store_metadata and delete_metadata with any arguments, run from
+    a store whose two indexes agree, the store a crash leaves at *any* point
+    still has every other pid's reference, still lists that pid in its cid's
+    reference list (also when the list is shared with the interrupted pid and is
+    being rewritten), and still has the object it names -/
+theorem others_fully_kept_at_every_crash_point (c : Call) (st : Store) (log : List Eff) (q : Str) (n : Nat)
+    (h : RefsExact o st) (ho : GoodOracle o) (hq : ∀ p, c.pidStr = some p → p ≠ q)
+    (hc : (∃ a b d e f g, c = .storeObject a b d e f g) ∨ (∃ a b, c = .tagObject a b) ∨ (∃ a, c = .deleteObject a) ∨
+          (∃ a b d, c = .storeMetadata a b d) ∨ (∃ a b, c = .deleteMetadata a b)) :
+    OtherKept o q st (Prog.crashAt n (c.prog cfg o) (calm st log)).2.st := by
+  rcases Prog.crashAt_in_trail (c.prog cfg o) n (calm st log) with h0 | h0
+  · rw [h0]; exact otherKept_refl o q st
+  · exact trail_kept cfg o c st log q h ho hq hc _ h0
+
+/-- what `OtherKept` says, spelled out -/
+theorem otherKept_means (q c : Str) (s s' : Store) (hk : OtherKept o q s s')
+    (hb : s.pidRefs.get (o.hId q) = some c) :
+    s'.pidRefs.get (o.hId q) = some c ∧
+    (∀ t, s.cidRefs.get c = some t → inRefs q t = true → ∃ t', s'.cidRefs.get c = some t' ∧ inRefs q t' = true) ∧
+    (∀ x, s.objs.get c = some x → s'.objs.get c = some x) := hk c hb
 
 end HS.C10
